@@ -554,9 +554,13 @@ def signature(res):
 # ------------------------------------------------------------------ uninitialised memory: paint differential
 # Same case, fresh child, different paint of the unused stack (C08_PAINT: before every API call and at the paint points
 # inside the parsers) resp. of freshly malloc'ed blocks (ASan malloc_fill_byte): every observable must be identical.
+HS_NAMES = {0: "hello_request", 1: "client_hello", 2: "server_hello", 3: "hello_verify_request", 4: "new_session_ticket", 8: "encrypted_extensions",
+            11: "certificate", 12: "server_key_exchange", 13: "certificate_request", 14: "server_hello_done", 15: "certificate_verify",
+            16: "client_key_exchange", 20: "finished", 22: "certificate_status", 255: "done"}
 BASE_PAINT = ("sFE/hBE", {"C08_PAINT": "fe"})          # the exploration itself runs painted: stack 0xfe, heap ASan's 0xbe
 PAINTS = [("stack", "s00", {"C08_PAINT": "00"}),
           ("heap", "h00", {"C08_PAINT": "fe", "ASAN_OPTIONS": "malloc_fill_byte=0"}),
+          ("stack", "sStale", {"C08_PAINT": "none"}),   # unpainted: a value that is only right because an earlier call left it on the stack
           ("stack", "s5A", {"C08_PAINT": "5a"}),
           ("heap", "hFE", {"C08_PAINT": "fe", "ASAN_OPTIONS": "malloc_fill_byte=254"})]
 
@@ -584,7 +588,7 @@ def paint_differential(ck, h, lines, labels, base, npaints):
     nd = 0
     # positive control: under every paint used, a frame opened after a paint point sees only the paint byte
     bad = []
-    for env in [base_env] + [p[2] for p in PAINTS[:npaints]]:
+    for env in [base_env] + [p[2] for p in PAINTS[:npaints] if p[2]["C08_PAINT"] != "none"]:
         _, o, _ = ck.run_lines(h, ["u paint"], env=dict(os.environ, **env))
         want = "paint:%s-%s" % (env["C08_PAINT"], env["C08_PAINT"])
         if [x.strip() for x in o if x.strip()] != [want]: bad.append("%s: %r" % (want, o))
@@ -596,14 +600,70 @@ def paint_differential(ck, h, lines, labels, base, npaints):
             if a != b:
                 nd += 1
                 what = first_difference(a, b)
-                ck.spec_violation("uninit:%s:%s" % (kind, what),
-                                  "behaviour depends on uninitialised %s memory: paint %s gives `%s`, paint %s gives `%s` (class %s)" % (
-                                      kind, base_name, a[:160], name, b[:160], lab),
+                faulted = a.startswith("FAULT") or b.startswith("FAULT")
+                ck.spec_violation("uninit:%s:%s" % (kind, what if faulted or not lab[1] else lab[1]),
+                                  "behaviour depends on uninitialised %s memory (first differing observable: %s): paint %s gives `%s`, paint %s gives `%s` (class %s)" % (
+                                      kind, what, base_name, a[:160], name, b[:160], lab[0]),
                                   {"harness": "h_wire", "case": l, "env": [base_env, env], "observed": [a[:600], b[:600]],
                                    "expected_by_spec": "identical observables under every paint"})
     ck.cov["paint_differential_cases"] = len(lines)
     ck.cov["paint_differential_runs"] = npaints + 1
     return nd
+
+
+# ------------------------------------------------------------------ uninitialised memory: valgrind memcheck on the plain build
+VG_HARNESS_FRAMES = ("__wrap_", "feed_api", "child_", "body_", "run_forked", "main", "drain_out", "op_", "prepare_state", "run_prefix", "mk_pair")
+
+
+def memcheck_pass(ck, lines, labels, nproc=4):
+    """the same harness without sanitizers under valgrind memcheck (definedness is tracked per bit, so a value that is
+    only right because an earlier call left it on the stack is seen as well).  stdout of the harness and the valgrind
+    log share one pipe: the messages that precede a result line belong to that case."""
+    import shutil
+    if not shutil.which("valgrind"):
+        ck.log("memcheck pass skipped: valgrind not installed")
+        ck.cov["memcheck_cases"] = 0
+        return 0
+    hv = ck.cc("h_wire.c", variant="plain", wraps=WRAPS + ["matrixSslDecode"])
+    buckets = [list(range(i, len(lines), nproc)) for i in range(nproc)]
+    procs = []
+    for b in buckets:
+        b.sort(key=lambda i: (tuple(lines[i].split(" ", 3)[:3]), i))        # cases of one state together (state cache)
+        p = subprocess.Popen(["valgrind", "-q", "--track-origins=yes", "--num-callers=14", "--error-limit=no", hv],
+                             stdin=subprocess.PIPE, stdout=subprocess.PIPE, stderr=subprocess.STDOUT, text=True, errors="replace")
+        procs.append((p, b))
+    import threading
+    found = {}
+    def work(p, b):
+        try:
+            o, _ = p.communicate("".join(lines[i] + "\n" for i in b), timeout=3000)
+        except subprocess.TimeoutExpired:
+            p.kill(); o = ""
+        k, pend = 0, []
+        for l in o.split("\n"):
+            if l.startswith("=="):
+                pend.append(re.sub(r"^==\d+== ?", "", l))
+            elif l:
+                if pend and k < len(b): found[b[k]] = pend
+                pend = []; k += 1
+    ths = [threading.Thread(target=work, args=pb) for pb in procs]
+    for t in ths: t.start()
+    for t in ths: t.join()
+    n = 0
+    for i in sorted(found):
+        rep = found[i]
+        kind = next((x.strip() for x in rep if x.strip() and not x.startswith(" ")), "memcheck error")
+        fn = "unknown"
+        for x in rep:
+            m = re.match(r"\s+(?:at|by) 0x[0-9A-Fa-f]+: (\S+) \((?:in )?([^)]*)\)", x)
+            if m and os.path.basename(m.group(2).split(":")[0]).startswith("h_wire") and not m.group(1).startswith(VG_HARNESS_FRAMES):
+                fn = m.group(1); break
+        n += 1
+        ck.spec_violation("uninit:memcheck:%s" % fn, "valgrind memcheck: %s in %s (class %s)" % (kind, fn, labels[i][0]),
+                          {"harness": "h_wire (plain build) under valgrind -q --track-origins=yes", "case": lines[i], "observed": "\n".join(rep)[:2500],
+                           "expected_by_spec": "no memcheck report"})
+    ck.cov["memcheck_cases"] = len(lines)
+    return n
 
 
 def corpus_lines(sub):
@@ -1039,10 +1099,19 @@ def explore(ck, h, quick_per_state, thorough_per_state):
     idx = list(range(ncorp)) + list(range(ncorp, ncorp + len(cases), step))
     pl = ["cap %s" % c for c in CFGS] + [lines[i] for i in idx] + sn
     pb = [capture.raw.get(c, "") for c in CFGS] + [outs[i] for i in idx] + (so if sn else [])
-    lab = ["legal-trace"] * len(CFGS) + ["corpus" if i < ncorp else cases[i - ncorp][0] for i in idx] + ["directed-sni"] * len(sn)
+    def msg_of(l):
+        """the handshake message the receiver expects in the state the case starts from: names the parser that is being fed"""
+        f = l.split()
+        try:
+            u = caps[f[1]][0][int(f[2])]
+            return "expecting-" + HS_NAMES.get(u.hs, "state%d" % u.hs)      # the receiver's hsState when the original unit arrived
+        except Exception:
+            return ""
+    lab = [("legal-trace", "legal-trace")] * len(CFGS) + [("corpus" if i < ncorp else cases[i - ncorp][0], msg_of(lines[i])) for i in idx] + \
+          [("directed-sni", "client_hello")] * len(sn)
     t = time.time()
-    nd = paint_differential(ck, h, pl, lab, pb, ck.budget(2, 4))
-    ck.log("paint differential: %d cases x %d further paints, %d differences, %.1fs" % (len(pl), ck.budget(2, 4), nd, time.time() - t))
+    nd = paint_differential(ck, h, pl, lab, pb, ck.budget(3, 5))
+    ck.log("paint differential: %d cases x %d further paints, %d differences, %.1fs" % (len(pl), ck.budget(3, 5), nd, time.time() - t))
     ck.cov["evaluations"] += len(lines)
     ck.cov["exploration_cases"] = len(lines)
     ck.cov["exploration_findings"] = nfind
